@@ -50,7 +50,7 @@ func genC14(c *h.Ctx) {
 						listed[f[1]+" "+f[2]] = true
 					}
 				}
-			case "forin", "link", "beh":
+			case "forin", "link", "beh", "route":
 				if len(f) == 2 {
 					c.Add(fmt.Sprintf("%s %s %s", f[0], cfg, f[1]), f[0], "cfg:"+cfg)
 				}
@@ -143,6 +143,8 @@ func implC14(line string) string {
 		return get(d.Link, f[2])
 	case "beh":
 		return get(d.Beh, f[2])
+	case "route":
+		return get(d.Route, f[2])
 	case "objkind":
 		return get(d.Static, "kind "+f[2]+" "+f[3])
 	case "bind":
